@@ -10,6 +10,11 @@ from .types import JSON, Evaluatable, MaybeEvaluatable, Options
 A = TypeVar("A", covariant=True)
 
 
+def _values(items: Iterable[Tuple[Dict[str, JSON], A]]) -> Iterable[A]:
+    # Module-level (not a lambda) so that a graph using Map.values can be pickled
+    return (item[1] for item in items)
+
+
 class Iter(Evaluatable[Iterable[A]]):
     """A class representing multiple evaluatables as an iterable.
 
@@ -185,4 +190,4 @@ class Map(Evaluatable[Iterable[Tuple[Dict[str, JSON], A]]]):
         returns the second element of the tuples returned by the Map
         evaluatable.
         """
-        return self.apply(lambda items: (item[1] for item in items))
+        return self.apply(_values)
